@@ -1,10 +1,14 @@
 #!/bin/sh
-# benign_run.sh <patch-name> <props...>: applies a benign change, runs checks, expects exit 0 (DRIFT allowed), restores
+# benign_run.sh <patch-name> <props...>: applies a benign change in a scratch worktree (never in /repo), runs the quick checks
+# against it, expects exit 0 (DRIFT allowed), removes the worktree
 n=$1; shift
 cd /verif
-git -C /repo apply /verif/selftest/benign/$n.patch || { echo "cannot apply $n"; exit 2; }
+wt=/tmp/wt/ben-$n
+git -C /repo worktree remove --force $wt >/dev/null 2>&1
+git -C /repo worktree add -q --detach $wt HEAD || exit 2
+git -C $wt apply /verif/selftest/benign/$n.patch || { echo "cannot apply $n"; git -C /repo worktree remove --force $wt; exit 2; }
 for p in "$@"; do
-  out=$(python3 check.py $p --tier quick 2>&1); rc=$?
+  out=$(VERIF_REPO=$wt VERIF_EVIDENCE_DIR=/verif/.work/seed-evidence python3 check.py $p --tier quick 2>&1); rc=$?
   echo "benign $n -> $p rc=$rc viol=$(echo "$out" | grep -c '^VIOLATION') drift=$(echo "$out" | grep -c '^DRIFT') $(echo "$out" | grep -m1 -e '^  formula' -e 'INFRA' | cut -c1-140)"
 done
-git -C /repo checkout -- .
+git -C /repo worktree remove --force $wt
